@@ -258,7 +258,17 @@ func predOfVal(v ssa.Value, pol bool) Pred {
 				case token.EQL:
 					return Pred{Kind: "eq", L: normSign(a.add(b, -1))}
 				case token.NEQ:
-					return Pred{Kind: "ne", L: normSign(a.add(b, -1))}
+					l := normSign(a.add(b, -1))
+					// a length is never negative: len(x) != 0  <=>  len(x) - 1 >= 0
+					if l.K == 0 && len(l.T) == 1 {
+						for at, k := range l.T {
+							if k == 1 && strings.HasPrefix(at, "len(") {
+								l.K = -1
+								return Pred{Kind: "ge", L: l}
+							}
+						}
+					}
+					return Pred{Kind: "ne", L: l}
 				}
 			}
 			if op == token.EQL || op == token.NEQ {
